@@ -60,12 +60,18 @@ class BareCriteria:
     def evaluate(self, context):
         return self.verdict
 
+    restored: list = []      # uids handed back by `from_dict` (the class is what the registry returns on a restore)
+
     def to_dict(self):
-        return {"name": "BareCriteria", "kwargs": {"uid": self.uid}}
+        # the user's own layout: what is in the dictionary is the business of the user's `to_dict` / `from_dict` pair
+        return {"name": "BareCriteria", "state": {"uid": self.uid, "size": self.size}}
 
     @classmethod
     def from_dict(cls, data):
-        return cls(**data.get("kwargs", {}))
+        c = cls(data["state"]["uid"])
+        c.size = data["state"]["size"]
+        cls.restored.append(c.uid)
+        return c
 
 
 def make_strict(allowed, tag):
@@ -328,6 +334,23 @@ class ProtocolSuite(common.Suite):
             md = d["moves"][e["name"]]["kwargs"]
             ser[e["name"]] = {"move": md["move"], "criteria": md["criteria"]}
         out["serialised"] = ser
+        # … and restored from that dictionary: the user's classes are looked up in the registry and THEIR `from_dict` rebuilds the
+        # objects (only when the table holds nothing but user moves: the scripted operations of the stock moves are not registered)
+        if all(e["kind"] in ("user", "composite") for e in case["entries"]):
+            from quansino.registry import register_class
+
+            register_class(BareMove, "BareMove")
+            register_class(BareCriteria, "BareCriteria")
+            BareCriteria.restored = []
+            want = {name: c.uid for name, c in crits.items() if name in d["moves"]}
+            try:
+                import copy as _copy
+
+                mc2 = type(mc).from_dict(_copy.deepcopy(d))
+                got = {name: getattr(st.criteria, "uid", None) for name, st in mc2.moves.items()}
+                out["restore"] = {"want": want, "got": got, "via_from_dict": sorted(BareCriteria.restored)}
+            except Exception as ex:  # noqa: BLE001
+                out["restore"] = {"want": want, "exception": f"{type(ex).__name__}: {str(ex)[:200]}"}
         return out
 
     # --------------------------------------------------------------- model
@@ -398,6 +421,13 @@ class ProtocolSuite(common.Suite):
                     out.append((f"protocol:cell-notification:{ens}", f"trial {k}: notified {got}, user moves {order}"))
             if notes_c and not (accepted and t["cell_changed"]):
                 out.append((f"protocol:cell-notification-without-change:{ens}", f"trial {k}: {notes_c}"))
+        rs = obs.get("restore")
+        if rs is not None:
+            if "exception" in rs:
+                out.append((f"protocol:restore:{ens}:exception", rs["exception"]))
+            elif rs["got"] != rs["want"] or rs["via_from_dict"] != sorted(rs["want"].values()):
+                out.append((f"protocol:restore:{ens}:criteria-not-rebuilt-by-its-from_dict",
+                            f"criteria uids {rs['want']} came back as {rs['got']}; from_dict of the user class returned {rs['via_from_dict']}"))
         # 3. serialised with the simulation
         for e in case["entries"]:
             ser = obs["serialised"][e["name"]]
